@@ -137,12 +137,32 @@ Definition params_next (it : params_it) : option (params_it * option (list N)) :
     g <- slice (pvals (pit_params it)) (pit_index it) (pit_index it + num) ;;
     Some (mkPIt (pit_params it) (pit_index it + num), Some g).
 
+(* goal-driven: the bounds test in either polarity (`index >= len` + early return, `if index < len { .. } else { None }`),
+   the index update before or after the slice is taken, named intermediate values; a test is decided on its leftmost
+   atom, so `a <? b` and `negb (b <=? a)` are the same case *)
+Ltac test_atom c :=
+  lazymatch c with
+  | negb ?x => test_atom x
+  | andb ?x _ => test_atom x
+  | orb ?x _ => test_atom x
+  | _ => c
+  end.
+Ltac opt_cases :=
+  repeat first
+    [ reflexivity
+    | match goal with
+      | |- context [if ?c then _ else _] =>
+          let a := test_atom c in
+          lazymatch a with true => fail | false => fail | _ => idtac end; destruct a
+      | |- context [aget ?l ?i] => destruct (aget l i)
+      | |- context [slice ?l ?a ?b] => destruct (slice l a b)
+      end; cbn [negb andb orb] ].
+
 Lemma g_params_iter_next_eq c it : g_params_iter_next c it = params_next it.
 Proof.
-  unfold g_params_iter_next, params_next, g_params_len, set_pit_index.
-  destruct (plen (pit_params it) <=? pit_index it); [reflexivity|].
-  destruct (aget (subparams (pit_params it)) (pit_index it)) as [num|]; [|reflexivity].
-  destruct (slice (pvals (pit_params it)) (pit_index it) (pit_index it + num)); reflexivity.
+  destruct it as [q i]. unfold g_params_iter_next, params_next, g_params_len, set_pit_index.
+  cbv zeta. cbn [pit_params pit_index]. rewrite ?N.ltb_antisym.
+  opt_cases.
 Qed.
 
 (* size_hint: lower and upper bound are both the number of VALUES not yet visited (not of groups) *)
